@@ -9,7 +9,9 @@ import impl
 
 ALPHA = list("abcdexyz") + ["é", "日", " ", "[", "]", "0", "1", "A", "F", "=",
                             # combining marks and conjoining jamo: a table maps code points, never normalised sequences
-                            "\u0301", "\u0300", "\u1100", "\u1161", "\uac00", "è"]
+                            "\u0301", "\u0300", "\u1100", "\u1161", "\uac00", "è",
+                            # a table file is read line by line ("\n" ends a line, nothing else does)
+                            "\x85", "\u2028", "\x0c", "\x1c", "\x0b"]
 
 
 def hx(s):
